@@ -30,6 +30,14 @@ func VHSetTitleOp(author identity.Interface, id entity.Id, title, was string) *S
 	return &SetTitleOperation{OpBase: dag.VHNewOpBase(SetTitleOp, author, 3, id), Title: title, Was: was}
 }
 
+func VHLabelOp(author identity.Interface, id entity.Id, added ...string) *LabelChangeOperation {
+	var ls []Label
+	for _, a := range added {
+		ls = append(ls, Label(a))
+	}
+	return &LabelChangeOperation{OpBase: dag.VHNewOpBase(LabelChangeOp, author, 4, id), Added: ls}
+}
+
 const VHFormatVersion = formatVersion
 
 // VHClone: decoding a stored pack yields fresh operation objects (M-PACK read side).
